@@ -668,7 +668,13 @@ func init() {
 			{name: "mixed_term", gen: genMixedTerm, monitors: mons, labels: commonLabels, quick: 600, thorough: 20000},
 		}
 	}
-	register(&checkDef{prop: "C13", parts: with(base(monC13), ntMultiRPC),
+	// (C13's quick tier runs three times the cases of the shared mixed profiles: the shapes some framing defects need - a handler
+	// that returns right after a read, on a bounded carrier - are about one case in forty thousand at the shared counts)
+	c13base := base(monC13)
+	for i := range c13base {
+		c13base[i].quick *= 3
+	}
+	register(&checkDef{prop: "C13", parts: with(c13base, ntMultiRPC),
 		rule: "every frame of every run of the mixed and mixed+termination generators is checked by the online protocol monitor; non-trivial = at least two tunneled streams were opened on the carrier; distinct = distinct SHA-256 of the case JSON"})
 	register(&checkDef{prop: "C14", parts: with(base(monC14), ntAbnormalEnd),
 		rule: "goroutine census and stream-table snapshots at the quiescent points of every run (after establishment, after draining, after releasing stalled actors, after ending every tunnel, after one more virtual hour); non-trivial = at least one RPC ended abnormally (cancel, deadline, rejection, tunnel end)"})
